@@ -281,6 +281,8 @@ def pm(o, pat, body=None):
         return True
     if not isinstance(o, Origin):
         return False
+    while o.k == "cast" and k != "cast" and str(o.a[0]).startswith("PointerCoercion"):
+        o = strip(o.a[1])
     if k == "fn":
         return bool(pat[1](o))
     if k == "param":
